@@ -50,13 +50,20 @@ pub fn check(ctx: &mut Ctx, doc: &Tree, path: &JPath, text: &str) {
         }
     }
     // the same four selections appended one after the other to the same buffers (a caller
-    // collecting rows): each appended part, delimited by its own offsets, is the fresh result
+    // collecting rows), starting with a different mode each time and, in the second pass, with
+    // bytes of the caller's own written in between (so that the last offset is not the length of
+    // the data): each appended part, delimited by its own offsets, is the fresh result
     // (documents of tens of thousands of elements get the plain relations only: the extra passes
     // multiply their cost without adding kinds of behaviour)
     if ctx.case_no % 2 == 0 && enc.len() < 100_000 {
         let (mut data, mut offs): (Vec<u8>, Vec<u64>) = (Vec::new(), Vec::new());
+        let first = ((ctx.case_no / 2) % 4) as usize;
         for round in 0..2 {
-            for m in 0..4 {
+            for k in 0..4 {
+                let m = (first + k) % 4;
+                if round == 1 {
+                    data.extend_from_slice(&[0x5A, 0x80, 0][..1 + (k + first) % 3]);
+                }
                 let (d0, o0) = (data.len(), offs.len());
                 if let Sel::Ok(_) = select_into(text.as_bytes(), &enc, m, &mut data, &mut offs) {
                     let ok = data.len() >= d0 && offs.len() >= o0 && data[d0..] == res[m].data[..] && offs[o0..].iter().map(|x| x.wrapping_sub(d0 as u64)).collect::<Vec<u64>>() == res[m].offsets;
